@@ -262,7 +262,27 @@ impl SimScenario {
                     show_list(&log)
                 ));
             }
-            node_lines.push(format!("Nd {} crashed={}", n, if node.is_crashed() { 1 } else { 0 }));
+            // the System-level accessors are documented as delegates of the node-level ones: they must agree on every
+            // observed state (a process is listed on exactly one node in the generated scenarios)
+            let mut api = self.sys.node_is_crashed(n) == node.is_crashed();
+            for p in node.process_names() {
+                if nodes.iter().filter(|m| self.sys.get_node(m).unwrap().process_names().contains(&p)).count() != 1 {
+                    continue;
+                }
+                api &= self.sys.proc_node_name(&p) == *n
+                    && self.sys.proc_node_is_crashed(&p) == node.is_crashed()
+                    && self.sys.sent_message_count(&p) == node.sent_message_count(&p)
+                    && self.sys.received_message_count(&p) == node.received_message_count(&p)
+                    && self.sys.local_outbox(&p) == node.local_outbox(&p)
+                    && self.sys.event_log(&p).len() == node.event_log(&p).len()
+                    && self.sys.process_names().contains(&p);
+            }
+            node_lines.push(format!(
+                "Nd {} crashed={} api={}",
+                n,
+                if node.is_crashed() { 1 } else { 0 },
+                api as u8
+            ));
         }
         out.extend(node_lines);
         let q: Vec<String> = self
